@@ -687,3 +687,91 @@ func (fi *FuncInfo) Returns() []*ssa.Return {
 func (fi *FuncInfo) RetVal(ret *ssa.Return, i int) ssa.Value {
 	return fi.resolveCell(ret.Results[i])
 }
+
+// boolAllPaths evaluates a boolean value over all ways it can have been
+// computed: constants, phis (each operand refined by the must-facts of its
+// incoming edge). Returns the set of possible values as (canTrue, canFalse);
+// both true = unknown.
+func (fi *FuncInfo) boolAllPaths(v ssa.Value, seen map[ssa.Value]bool) (bool, bool) {
+	if b, ok := constBool(v); ok {
+		return b, !b
+	}
+	if seen[v] {
+		return false, false // cycle contributes nothing new
+	}
+	seen[v] = true
+	ph, ok := v.(*ssa.Phi)
+	if !ok {
+		return true, true
+	}
+	ct, cf := false, false
+	for i, e := range ph.Edges {
+		ef := fi.EdgeFactSet(ph.Block().Preds[i], ph.Block())
+		f := normFact(e, true)
+		switch {
+		case ef[Fact{f.V, f.Val}]:
+			ct = true
+		case ef[Fact{f.V, !f.Val}]:
+			cf = true
+		default:
+			t, fl := fi.boolAllPaths(e, seen)
+			ct = ct || t
+			cf = cf || fl
+		}
+	}
+	return ct, cf
+}
+
+// PathFromEdgePruned is PathFromBlock with one refinement: when a block is
+// entered along a known edge and its branch condition is a phi of that block,
+// the operand for that edge is evaluated with boolAllPaths and an infeasible
+// successor is not followed (flag variables such as `skip first time`).
+func (fi *FuncInfo) PathFromEdgePruned(pred, b *ssa.BasicBlock, target, barrier func(ssa.Instruction) bool) ssa.Instruction {
+	type st struct{ p, b *ssa.BasicBlock }
+	seen := map[st]bool{}
+	work := []st{{pred, b}}
+	for len(work) > 0 {
+		cur := work[len(work)-1]
+		work = work[:len(work)-1]
+		if seen[cur] {
+			continue
+		}
+		seen[cur] = true
+		blocked := false
+		for _, in := range cur.b.Instrs {
+			if target(in) {
+				return in
+			}
+			if barrier != nil && barrier(in) {
+				blocked = true
+				break
+			}
+		}
+		if blocked {
+			continue
+		}
+		succs := cur.b.Succs
+		if ifi, ok := cur.b.Instrs[len(cur.b.Instrs)-1].(*ssa.If); ok && len(succs) == 2 && cur.p != nil {
+			f := normFact(ifi.Cond, true)
+			if ph, ok := f.V.(*ssa.Phi); ok && ph.Block() == cur.b {
+				for i, pp := range cur.b.Preds {
+					if pp == cur.p {
+						ct, cf := fi.boolAllPaths(ph.Edges[i], map[ssa.Value]bool{})
+						if !f.Val {
+							ct, cf = cf, ct
+						}
+						if ct && !cf {
+							succs = []*ssa.BasicBlock{cur.b.Succs[0]}
+						} else if cf && !ct {
+							succs = []*ssa.BasicBlock{cur.b.Succs[1]}
+						}
+					}
+				}
+			}
+		}
+		for _, s := range succs {
+			work = append(work, st{cur.b, s})
+		}
+	}
+	return nil
+}
